@@ -38,6 +38,13 @@ def generic(bin_name, crate="replay", release=True):
         if last and last.get("found"):
             last["driver"] = bin_name
             return last
+        if p.returncode not in (0, 1) and ("panicked" in p.stderr or "abort" in p.stderr.lower()) and "could not compile" not in p.stderr:
+            # the real code brought the driver process down (panic in a worker thread / abort in a destructor)
+            hist = [l for l in p.stderr.split("\n") if l.startswith("LAST-HISTORY")]
+            return {"found": True, "driver": bin_name, "case": "the real code panicked / aborted the process while replaying a history",
+                    "input": hist[-1] if hist else "(see observed)", "observed": "\n".join([l for l in p.stderr.split("\n") if "panicked at" in l or l.strip().startswith(("assertion", "called `", "WriteBuffer", "panic in"))][:6]) or p.stderr[-800:],
+                    "expected": "no panic",
+                    "driver_exit": p.returncode}
         return {"found": False, "driver": bin_name, "driver_exit": p.returncode, "driver_stderr": p.stderr[-1500:], "searched": (last or {}).get("searched")}
     return f
 
